@@ -107,7 +107,10 @@ CHECKS = {
         "(every n_per), c11_worker_independent, c11_tables_total, c11_empty_direction_table (F17 repaired in /repo 90f7980), c11_mask_file_exact, c11_mask_file_strict_is_zero, c11_mask_route_sound, c11_mask_route_complete. Tie: correct_ttest / "
         "approx_correct_ttest / penetrance tests / score_differential_genes / _get_validity_mask on a dyadic grid where binary64 is exact, and both marker routes end to end "
         "on generated statistics files vs the extracted model.",
-   note="c11_boring_exact_p_ge / c11_boring_t_sound / _code rest on premises about scipy's Student CDF on [-boring_t, boring_t] (end points end_lo / end_hi per occurring nu, monotonicity, NaN convention) that the harness CHECKS on every (t, nu) that occurs "
+   note="After the third audit: the from-stats theorems carry `off_threshold` (no rational score equals a threshold or floor: where one does, binary64 decides — qdiff = 7/10 is 0.7000000000000001 — counted per run under c11_threshold_hit_exactly on ~2700 enumerated count quadruples); "
+        "variance, means and fold are float-faithful (Model/Welch.v `fl`: round-to-nearest-even to 53 bits in Z arithmetic; compared bit for bit with numpy on non-dyadic constants, negative float variances included); the p-value oracle is a function of the modelled statistic (t_cdf : tnu -> option Z, a table on the wire; "
+        "c11_equal_statistic_equal_p, c11_nu_matters) and c11_sound_exact_welch_composed derives the skipped-gene premise from the boring premises; c11_welch_constant_gene + known finding F33 (a gene constant in both clusters with exactly-zero float variance is never a marker although maximally different; with a rounding residue it is). "
+        "c11_boring_exact_p_ge / c11_boring_t_sound / _code rest on premises about scipy's Student CDF on [-boring_t, boring_t] (end points end_lo / end_hi per occurring nu, monotonicity, NaN convention) that the harness CHECKS on every (t, nu) that occurs "
         "(class c11-boring-premise-false-on-occurring-value); c11_boring_needs_end_lo shows the premise is necessary and it fails for nu above ~3e6..9e6 (known finding F22, reproduced on the real score_differential_genes). "
         "Model/Welch.v derives t^2, sign, nu, penetrances, q-scores, fold and means from summary-statistics rows (IEEE corner cases n = 0, n = 1, zero variance explicit): c11_sound_from_stats, c11_complete_from_stats, c11_sound_exact_welch, c11_welch_route_decisions, "
         "c11_welch_zero_variance / _p_nan / _empty_cluster, swap symmetry proved (c11_welch_swap_statistic / _boring / _scores / _p with c11_welch_swap_p_clip_caveat); tie tags 1150-1154 on exact-grid inputs with scipy's t.cdf as a per-gene oracle. "
